@@ -86,7 +86,7 @@ def exhaustive(tier: str) -> bool:
 def gen_case(idx: int, seed: int, tier: str) -> Any:
     n_enum = len(universe())
     if idx == plan(tier)["cases"] - 1:
-        return {"kind": "suite"}  # the repository's own tests as one more workload, with the contract on
+        return {"kind": "suite", "timeout_s": 600}  # the repository's own tests as one more workload, with the contract on
     if idx < n_enum:
         return {"kind": "enum", "orig_index": idx}
     return {"kind": "random", "seed": f"{seed}:{idx}", "pairs": 50}
